@@ -423,38 +423,26 @@ class Scn:
 
         def worker(j: int) -> Any:
             def f() -> None:
+                # a runner thread: runs what it has claimed; in the retry scenario it then keeps polling until the
+                # queue is empty (retries of either workflow and sub-invocations are run by whoever gets them)
                 ctx = runner_ctx(f"r{j}")
                 inv = claimed[j]
-                for _ in range(fail_until + 1):
+                for _ in range(12):
+                    name = inv.task.task_id.func_name
                     try:
                         inv.run(ctx)
-                        events.append(("ran", str(inv.invocation_id), "wf_prog", None))
+                        events.append(("ran", str(inv.invocation_id), name, None))
                     except sched.Abort:
                         raise
                     except Exception as e:  # noqa: BLE001
-                        events.append(("raised", str(inv.invocation_id), "wf_prog", f"{type(e).__name__}: {e}"[:200]))
+                        events.append(("raised", str(inv.invocation_id), name, f"{type(e).__name__}: {e}"[:200]))
                     if not fail_until:
-                        break
-                    # the retry of the own invocation: poll until it comes (sub-invocations and the other
-                    # workflow's retry are run as they come, as a runner would)
-                    nxt = None
-                    for _ in range(8):
-                        got = list(apps[j].orchestrator.get_invocations_to_run(1, ctx))
-                        if not got:
-                            break
-                        nxt = got[0]
-                        if nxt.task.task_id.func_name == "wf_prog":
-                            break
-                        try:
-                            nxt.run(ctx)
-                        except sched.Abort:
-                            raise
-                        except Exception:  # noqa: BLE001
-                            pass
-                        nxt = None
-                    if nxt is None:
-                        break
-                    inv = nxt
+                        return  # nothing is re-queued for this worker's workflow: the thread's job is done
+                    got = list(apps[j].orchestrator.get_invocations_to_run(1, ctx))
+                    if not got:
+                        return
+                    inv = got[0]
+                events.append(("harness", "no-quiescence", None, None))
             return f
 
         s = sched.Scheduler(choices, expect, max_points=6000, lazy=("_add_histories",))
@@ -476,7 +464,7 @@ class Scn:
 
     def check(self, ex: sched.Execution, p: Partial) -> None:
         d = self.desc
-        base = {"history": "two-" + d.get("procs", "threads") + ("-retry" if d.get("fail_until") else ""),
+        base = {"history": "two-" + d.get("procs", "threads"),
                 "image": "same" if d.get("procs", "threads") == "threads" else "fresh", "backend": d["backend"]}
         if ex.outcome != "done":
             p.violation({"clause": f"no-progress:{ex.outcome}", **base, "op": "-", "_no_windows": True},
@@ -484,10 +472,34 @@ class Scn:
             return
         found, comps = judge(ex.obs, tuple(d["prog"]))
         p.count("attempt_comparisons_in_schedules", comps)
+        # Exploration only (p is the explorer's accumulator, which has already counted this schedule; minimisation
+        # and replay pass an empty Partial and get everything): a (clause, op) that the default schedule of this
+        # scenario shows as well, or that this process has already reported for a preempting schedule, would get the
+        # very same signature (see _fold: schedule = default | preempted) - it is counted, not minimised again.
+        exploring = bool(p.counters.get("schedules")) and ex.deviations > 0
+        key = canon(d)
         for clause, op, detail in found:
+            p.count("violating_observations_in_schedules")
+            if exploring:
+                if (clause, op) in self._default_shows(key):
+                    continue
+                if (clause, op) in _SEEN_PREEMPTED.setdefault(key, set()):
+                    continue
+                _SEEN_PREEMPTED[key].add((clause, op))
             p.violation({"clause": clause, **base, "op": op, "_no_windows": True},
                         dict(detail, program=d["prog"],
                              executions=[(r["inv"][-4:], r["attempt"], r["thread"], r["values"]) for r in ex.obs["log"]][:8]), {})
+
+    def _default_shows(self, key: str) -> set:
+        got = _DEFAULT_SHOWS.get(key)
+        if got is None:
+            ex0 = self.execute([], None)
+            got = _DEFAULT_SHOWS[key] = {(c, o) for c, o, _ in judge(ex0.obs, tuple(self.desc["prog"]))[0]}
+        return got
+
+
+_DEFAULT_SHOWS: dict[str, set] = {}
+_SEEN_PREEMPTED: dict[str, set] = {}
 
 
 def build(desc: dict) -> Scn:
@@ -495,16 +507,16 @@ def build(desc: dict) -> Scn:
 
 
 def schedule_descs(ctx: Ctx) -> list[dict]:
-    t = ctx.thorough
+    k = 1 if ctx.thorough else 0
     out = []
     for backend in env.BACKENDS:
         sq = backend == env.SQLITE
-        out.append(dict(backend=backend, prog=["random"], bound=3 if t or sq else 2))
-        out.append(dict(backend=backend, prog=["random", "uuid"], bound=(3 if sq else 2) if t else (2 if sq else 1)))
-        out.append(dict(backend=backend, prog=["utc_now", "exec0", "random"], bound=2 if t else 1))
-        out.append(dict(backend=backend, prog=["exec0", "exec1"], bound=2 if t or sq else 1))
-        out.append(dict(backend=backend, prog=["random", "exec0"], fail_until=1, bound=2 if t else 1))
-    out.append(dict(backend=env.SQLITE, prog=["random", "exec0", "uuid"], procs="processes", bound=3 if t else 2))
+        out.append(dict(backend=backend, prog=["random"], bound=2 + k))
+        out.append(dict(backend=backend, prog=["random", "uuid"], bound=(2 if sq else 1) + k))
+        out.append(dict(backend=backend, prog=["utc_now", "exec0", "random"], bound=1 + k))
+        out.append(dict(backend=backend, prog=["exec0", "exec1"], bound=1 + k))
+        out.append(dict(backend=backend, prog=["random", "exec0"], fail_until=1, bound=1 + k))
+    out.append(dict(backend=env.SQLITE, prog=["random", "exec0", "uuid"], procs="processes", bound=2 + k))
     return out
 
 
@@ -516,6 +528,9 @@ def _fold(ctx: Ctx) -> None:
     order: list[str] = []
     for v in ctx.violations:
         s = v["signature"]
+        if "deviations" in s:
+            # schedule-independent identity: does it need a preemption at all?
+            s["schedule"] = "default" if s.pop("deviations") == 0 else "preempted"
         key = canon({k: x for k, x in s.items() if k not in ("backend", "op")})
         g = groups.get(key)
         if g is None:
@@ -532,7 +547,7 @@ def _fold(ctx: Ctx) -> None:
         bs = sorted(x for x in g["backends"] if x)
         sig["backend"] = "all" if set(bs) == set(env.BACKENDS) else "+".join(bs)
         sig["op"] = "+".join(sorted(x for x in g["ops"] if x))
-        v = {"signature": sig, "detail": dict(v["detail"], executions_showing_it=g["n"]), "replay": v["replay"]}
+        v = {"signature": sig, "detail": v["detail"], "replay": v["replay"]}
         folded.append(v)
     ctx.violations[:] = folded
 
